@@ -212,14 +212,19 @@ func oracleC01(x *exec, v *viols, pre, post *snap, rp *reply) {
 			if c.toldN == 0 && view.name == "told" {
 				continue
 			}
+			class := view.name
+			if view.name == "told" && post.Cache[c.id()].Res.Cpus == "" {
+				// the cache holds an empty cpuset, which NRI cannot express: the runtime keeps the old pinning
+				class = "told:unpinned-in-cache"
+			}
 			if out := cs.Difference(avail); !out.IsEmpty() {
-				v.add("outside-available", "outside-available", "%s (%s view) is pinned to %s, CPUs %s are outside the available set %s", c.id(), view.name, cs, out, avail)
+				v.add("outside-available", "outside-available:"+class, "%s (%s view) is pinned to %s, CPUs %s are outside the available set %s", c.id(), view.name, cs, out, avail)
 			}
 			if touch := cs.Intersection(reserved); !touch.IsEmpty() {
 				if !x.reservedClass(c) {
-					v.add("reserved-to-non-reserved", "reserved-to-non-reserved", "%s (%s view) is not reserved-class but is pinned to reserved CPUs %s (cpuset %s)", c.id(), view.name, touch, cs)
+					v.add("reserved-to-non-reserved", "reserved-to-non-reserved:"+class, "%s (%s view) is not reserved-class but is pinned to reserved CPUs %s (cpuset %s)", c.id(), view.name, touch, cs)
 				} else if !cs.IsSubsetOf(reserved) {
-					v.add("reserved-mixed", "reserved-mixed", "%s (%s view) mixes reserved CPUs %s with others in %s", c.id(), view.name, touch, cs)
+					v.add("reserved-mixed", "reserved-mixed:"+class, "%s (%s view) mixes reserved CPUs %s with others in %s", c.id(), view.name, touch, cs)
 				}
 			}
 		}
@@ -301,6 +306,9 @@ func oracleC03(x *exec, v *viols, pre, post *snap, rp *reply) {
 			return "local"
 		}
 		total := parseSet(post.TA.Pools[pi].TotalSharable)
+		if total.IsEmpty() {
+			return "pool-has-no-sharable-cpus"
+		}
 		for _, g := range post.TA.Grants {
 			if g.Pool != pool && inSubtree(pool, g.Pool) && !parseSet(g.Exclusive).Intersection(total).IsEmpty() {
 				return "exclusive-sliced-by-ancestor-pool"
@@ -1096,4 +1104,189 @@ func (x *exec) cpuOptedOutUnder(c *wctr, cfgIdx int) bool {
 	o, _ := x.cpuOptedOut(c)
 	x.w.cfgIdx = saved
 	return o
+}
+
+
+// ---------------------------------------------------------------------------
+// C13
+
+func cacheView(s *snap) string {
+	d, _ := json.Marshal(s.Cache)
+	return string(d)
+}
+
+func zonesView(s *snap) string {
+	d, _ := json.Marshal(s.Zones)
+	return string(d)
+}
+
+func policyView(s *snap) string {
+	d, _ := json.Marshal(struct {
+		TA, BL, Mem, Req, Cls any
+	}{s.TA, s.BL, s.MemZone, s.MemReqs, s.CPUClass})
+	return string(d)
+}
+
+func firstDiff(a, b string) string {
+	n := len(a)
+	if len(b) < n {
+		n = len(b)
+	}
+	i := 0
+	for i < n && a[i] == b[i] {
+		i++
+	}
+	lo := i - 80
+	if lo < 0 {
+		lo = 0
+	}
+	ha, hb := i+120, i+120
+	if ha > len(a) {
+		ha = len(a)
+	}
+	if hb > len(b) {
+		hb = len(b)
+	}
+	return fmt.Sprintf("...%s  <>  ...%s", a[lo:ha], b[lo:hb])
+}
+
+func oracleC13(x *exec, v *viols, pre, post *snap, rp *reply) {
+	f := strings.Split(rp.ev, ":")
+	if f[0] != "reconf" || pre == nil || rp.panic != "" {
+		return
+	}
+	var idx int
+	fmt.Sscanf(f[1], "%d", &idx)
+	label := x.scn.cfgs[idx].label
+	switch {
+	case rp.err == nil && idx == x.cfgBefore:
+		verifCounters["c13_identical_reconfigurations"]++
+		// idempotence: nothing about any container changes, pushed updates are no-ops
+		if a, b := cacheView(pre), cacheView(post); a != b {
+			v.add("identical-config-changed-containers", "identical-config-changed-containers", "re-applying configuration %q changed container resources: %s", label, firstDiff(a, b))
+		}
+		for _, u := range rp.pushed {
+			c := x.w.byID[u.GetContainerId()]
+			if c == nil {
+				continue
+			}
+			before := x.toldBefore[u.GetContainerId()]
+			after := before
+			after.merge(u.GetLinux().GetResources())
+			if after != before {
+				v.add("identical-config-pushed-change", "identical-config-pushed-change", "re-applying configuration %q pushed a real change to %s: %+v -> %+v", label, c.id(), before, after)
+			}
+		}
+	case rp.err != nil:
+		verifCounters["c13_rejected_reconfigurations"]++
+		if a, b := cacheView(pre), cacheView(post); a != b {
+			v.add("rejected-config-changed-containers", "rejected-config-changed-containers:"+label, "rejected configuration %q (%v) changed container resources: %s", label, rp.err, firstDiff(a, b))
+		}
+		if a, b := zonesView(pre), zonesView(post); a != b {
+			v.add("rejected-config-changed-zones", "rejected-config-changed-zones:"+label, "rejected configuration %q (%v) changed advertised capacities: %s", label, rp.err, firstDiff(a, b))
+		}
+		if a, b := policyView(pre), policyView(post); a != b {
+			v.add("rejected-config-changed-policy-state", "rejected-config-changed-policy-state:"+label, "rejected configuration %q (%v) changed policy state: %s", label, rp.err, firstDiff(a, b))
+		}
+		if len(rp.pushed) > 0 {
+			changed := false
+			for _, u := range rp.pushed {
+				before := x.toldBefore[u.GetContainerId()]
+				after := before
+				after.merge(u.GetLinux().GetResources())
+				if after != before {
+					changed = true
+				}
+			}
+			if changed {
+				v.add("rejected-config-pushed-change", "rejected-config-pushed-change:"+label, "rejected configuration %q pushed real changes to the runtime", label)
+			}
+		}
+	default:
+		verifCounters["c13_accepted_reconfigurations"]++
+		// every created/running container still holds an allocation; all invariants hold under the new configuration
+		for _, c := range x.liveCtrs() {
+			held := false
+			if post.TA != nil {
+				for _, g := range post.TA.Grants {
+					if g.ID == c.id() {
+						held = true
+					}
+				}
+			}
+			if post.BL != nil {
+				if o, _ := x.cpuOptedOut(c); o && (c.cpuPreserved() || x.preserveRuleMatches(c)) {
+					held = true
+				}
+				if x.balloonDefOf(c, post) != "" {
+					held = true
+				}
+			}
+			if !held {
+				v.add("live-container-lost-allocation", "live-container-lost-allocation:"+label, "after accepted configuration %q live container %s holds no allocation", label, c.id())
+			}
+		}
+		sub := &viols{prop: "C13", scn: v.scn, trace: v.trace}
+		if post.TA != nil {
+			oracleC01(x, sub, pre, post, rp)
+			oracleC03(x, sub, pre, post, rp)
+		} else {
+			oracleC02(x, sub, pre, post, rp)
+		}
+		oracleC04(x, sub, pre, post, rp)
+		oracleC05(x, sub, pre, post, rp)
+		oracleC09(x, sub, pre, post, rp)
+		for _, sv := range sub.out {
+			if sv.Oracle == "exclusive-count" {
+				// eligibility is decided when a container is admitted; existing grants are reinstated as they are
+				// on reconfiguration, and the property does not ask for re-evaluation of preferences
+				continue
+			}
+			sv.Signature = "after-accepted-config/" + sv.Signature
+			sv.Oracle = "after-accepted-config/" + sv.Oracle
+			v.out = append(v.out, sv)
+		}
+	}
+}
+
+// twinC13: a trace with rejected configuration updates must end in the same state, with the same last reply, as the same trace without them.
+func twinC13(pd *propDef) func(w *mc.Worker, s *scenario, dir string, trace []string, x *exec, post *snap) []mc.Violation {
+	return func(w *mc.Worker, s *scenario, dir string, trace []string, x *exec, post *snap) []mc.Violation {
+		if len(x.rejected) == 0 || x.in.dead || strings.HasPrefix(trace[len(trace)-1], "reconf") {
+			return nil
+		}
+		var twin []string
+		rej := map[int]bool{}
+		for _, i := range x.rejected {
+			rej[i] = true
+		}
+		for i, ev := range trace {
+			if !rej[i] {
+				twin = append(twin, ev)
+			}
+		}
+		lastRP := x.last
+		_, tx, tpost := runTrace(pd, s, twin, false)
+		if tx == nil || tpost == nil {
+			return nil
+		}
+		verifCounters["c13_twin_comparisons"]++
+		v := &viols{prop: "C13", scn: s.name, trace: trace}
+		a, _ := json.Marshal(post)
+		b, _ := json.Marshal(tpost)
+		labels := []string{}
+		for _, i := range x.rejected {
+			var k int
+			fmt.Sscanf(strings.Split(trace[i], ":")[1], "%d", &k)
+			labels = append(labels, s.cfgs[k].label)
+		}
+		sort.Strings(labels)
+		lab := strings.Join(labels, "+")
+		if string(a) != string(b) {
+			v.add("rejected-config-changes-later-decisions", "rejected-config-changes-later-decisions:"+lab, "with the rejected updates the history ends differently than without them (twin trace %v): %s", twin, firstDiff(string(a), string(b)))
+		} else if (lastRP.err == nil) != (tx.last.err == nil) || len(lastRP.updates) != len(tx.last.updates) {
+			v.add("rejected-config-changes-later-replies", "rejected-config-changes-later-replies:"+lab, "the last request is answered differently with and without the rejected updates (twin trace %v)", twin)
+		}
+		return v.out
+	}
 }
